@@ -29,7 +29,8 @@ def main():
     hit = None
     try:
       for c in checks:
-        rc, out = sh(f'VERIF_SEED={os.environ.get('VERIF_SEED', '0')} timeout 1500 harness/vcheck.py {c} --tier quick', cwd=VERIF)
+        seed = os.environ.get('VERIF_SEED', '0')
+        rc, out = sh(f'VERIF_SEED={seed} timeout 1500 harness/vcheck.py {c} --tier quick', cwd=VERIF)
         line = next((l for l in out.splitlines() if l.startswith('VIOLATION')), None)
         if line:
           hit = (c, 'no-failing-input-found' if line.rstrip().endswith('no-failing-input-found') else 'failing input')
